@@ -198,6 +198,8 @@ void SCPI_ErrorPushEx(scpi_t * context, int16_t err, char * info, size_t info_le
 
     SCPI_ErrorEmit(context, err);
     if (queue_overflow) {
+        /* the queued -350 is a device-specific error */
+        SCPI_RegSetBits(context, SCPI_REG_ESR, ESR_DER);
         SCPI_ErrorEmit(context, SCPI_ERROR_QUEUE_OVERFLOW);
     }
 
